@@ -6,7 +6,7 @@ Local Open Scope nat_scope.
 
 Definition op_txn (o : top) : nat :=
   match o with
-  | TBegin t | TRead t _ _ | TWrite t _ _ _ | TCreate t _ _ _ | TDelete t _ _ | TCommit t _ | TDiscard t => t
+  | TBegin t | TRead t _ _ | TWrite t _ _ _ | TCreate t _ _ _ | TDelete t _ _ | TCommit t _ | TDiscard t | TList t _ => t
   end.
 Definition is_begin (o : top) : bool := match o with TBegin _ => true | _ => false end.
 Definition is_commit (o : top) : bool := match o with TCommit _ _ => true | _ => false end.
@@ -29,7 +29,7 @@ Proof. intros H. unfold gettx, settx. cbn [m_txs]. rewrite tlook_put_other by as
 (* an operation of another transaction does not touch this transaction's state *)
 Lemma other_step s o t : op_txn o <> t -> gettx (step s o) t = gettx s t.
 Proof.
-  intros H. unfold step. destruct o as [t'|t' d r|t' d v ok|t' d v ok|t' d ok|t' ok|t']; cbn [op_txn] in H; cbn [mstep].
+  intros H. unfold step. destruct o as [t'|t' d r|t' d v ok|t' d v ok|t' d ok|t' ok|t'|t' obs]; cbn [op_txn] in H; cbn [mstep].
   - cbn [fst]. apply gettx_settx_other; auto.
   - cbn [fst]. apply gettx_settx_other; auto.
   - destruct (is_some _); cbn [fst]; apply gettx_settx_other; auto.
@@ -38,6 +38,7 @@ Proof.
   - destruct (_ || _); cbn [fst]; [apply gettx_settx_other; auto|].
     unfold commit_tx, gettx. cbn [m_txs]. rewrite tlook_put_other by assumption. reflexivity.
   - cbn [fst]. apply gettx_settx_other; auto.
+  - reflexivity.
 Qed.
 
 (* an own operation other than begin / commit changes the transaction's state as a function of that state only *)
@@ -58,13 +59,14 @@ Definition local (x : tx) (o : top) : tx :=
 Lemma own_step s o t : op_txn o = t -> is_begin o = false -> is_commit o = false ->
   gettx (step s o) t = local (gettx s t) o.
 Proof.
-  intros H Hb Hc. unfold step. destruct o as [t'|t' d r|t' d v ok|t' d v ok|t' d ok|t' ok|t']; cbn [op_txn] in H; subst;
+  intros H Hb Hc. unfold step. destruct o as [t'|t' d r|t' d v ok|t' d v ok|t' d ok|t' ok|t'|t' obs]; cbn [op_txn] in H; subst;
     try discriminate; cbn [mstep local].
   - cbn [fst]. apply gettx_settx_same.
   - destruct (is_some _); cbn [fst]; apply gettx_settx_same.
   - cbn [fst]. apply gettx_settx_same.
   - destruct (is_some _); cbn [fst]; apply gettx_settx_same.
   - cbn [fst]. apply gettx_settx_same.
+  - reflexivity.
 Qed.
 
 Definition mine (t : nat) (o : top) : bool := Nat.eqb (op_txn o) t.
@@ -109,7 +111,7 @@ Theorem visibility_step s o :
   m_cur (step s o) = m_cur s \/
   (exists t ok, o = TCommit t ok /\ snd (mstep s o) = POk true /\ m_cur (step s o) = t_writes (gettx s t) ++ m_cur s).
 Proof.
-  unfold step. destruct o as [t|t d r|t d v ok|t d v ok|t d ok|t ok|t]; cbn [mstep]; try (left; reflexivity).
+  unfold step. destruct o as [t|t d r|t d v ok|t d v ok|t d ok|t ok|t|t obs]; cbn [mstep]; try (left; reflexivity).
   - destruct (is_some _); left; reflexivity.
   - destruct (is_some _); left; reflexivity.
   - destruct (_ || _) eqn:E; [left; reflexivity|]. right. exists t, ok. repeat split.
@@ -132,7 +134,7 @@ Proof.
   assert (Triv : forall t x, ver_inv (settx s t x) /\ m_clock s <= m_clock (settx s t x) /\
                    (forall d, vlook d (m_ver s) <= vlook d (m_ver (settx s t x)))).
   { intros t x. cbn [settx m_ver m_clock]. repeat split; auto. }
-  destruct o as [t|t d r|t d v ok|t d v ok|t d ok|t ok|t]; cbn [mstep].
+  destruct o as [t|t d r|t d v ok|t d v ok|t d ok|t ok|t|t obs]; cbn [mstep].
   - apply Triv.
   - apply Triv.
   - destruct (is_some (tview (gettx s t) d)); apply Triv.
@@ -143,6 +145,7 @@ Proof.
     + intros d. rewrite vlook_app_map. destruct (existsb _ _); [lia | specialize (HI d); lia].
     + intros d. rewrite vlook_app_map. destruct (existsb _ _); [specialize (HI d); lia | lia].
   - apply Triv.
+  - cbn [fst]. repeat split; auto.
 Qed.
 
 Lemma run_ver ops : forall s, ver_inv s ->
@@ -215,3 +218,55 @@ Proof.
     apply G. unfold step. cbn [mstep fst]. rewrite gettx_settx_same. reflexivity. }
   rewrite Ho. reflexivity.
 Qed.
+
+(* ---- 5. listings: a listing inside a transaction shows exactly the documents that exist in its view ---- *)
+Lemma in_ins_nat x y l : In x (ins_nat y l) <-> x = y \/ In x l.
+Proof.
+  induction l as [|z l IH]; cbn [ins_nat]; [cbn; intuition|].
+  destruct (y <=? z); cbn [In]; [intuition|]. rewrite IH. intuition.
+Qed.
+Lemma in_sorted l x : In x (fold_right ins_nat [] l) <-> In x l.
+Proof. induction l as [|y l IH]; cbn [fold_right In]; [tauto|]. rewrite in_ins_nat, IH. intuition. Qed.
+
+Lemma keys_of_spec m : forall seen d, In d (keys_of m seen) <-> In d (map fst m) /\ ~ In d seen.
+Proof.
+  induction m as [|[k v] m IH]; intros seen d; cbn [keys_of map fst In]; [tauto|].
+  destruct (existsb (Nat.eqb k) seen) eqn:E.
+  - rewrite IH. apply existsb_exists in E. destruct E as [z [Hz Ez]]. apply Nat.eqb_eq in Ez. subst z.
+    split; [tauto|]. intros [[->|H] Hn]; [contradiction|tauto].
+  - cbn [In]. rewrite IH. cbn [In].
+    assert (Hk : ~ In k seen).
+    { intros H. assert (existsb (Nat.eqb k) seen = true) by (apply existsb_exists; exists k; split; auto; apply Nat.eqb_refl). congruence. }
+    split.
+    + intros [->|[H1 H2]]; [tauto|]. split; [tauto|]. intros H; apply H2; right; exact H.
+    + intros [[->|H1] H2]; [left; reflexivity|]. destruct (Nat.eq_dec k d) as [->|Hne]; [left; reflexivity|].
+      right. split; auto. intros [H|H]; [contradiction|tauto].
+Qed.
+
+Lemma dlook_in d m v : dlook d m = Some v -> In d (map fst m).
+Proof.
+  induction m as [|[k w] m IH]; cbn [dlook map fst In]; [discriminate|].
+  destruct (Nat.eqb_spec k d) as [->|Hne]; [auto | intros H; right; auto].
+Qed.
+
+Lemma visible_in_keys x d : is_some (tview x d) = true -> In d (map fst (t_writes x ++ t_snap x)).
+Proof.
+  unfold tview, dget. rewrite map_app, in_app_iff. destruct (dlook d (t_writes x)) eqn:E1.
+  - intros _. left. eapply dlook_in; eauto.
+  - destruct (dlook d (t_snap x)) eqn:E2; [|discriminate]. intros _. right. eapply dlook_in; eauto.
+Qed.
+
+Theorem list_is_view s t obs :
+  snd (mstep s (TList t obs)) = PList (view_docs (gettx s t)) /\
+  (forall d, In d (view_docs (gettx s t)) <-> is_some (tview (gettx s t) d) = true) /\
+  fst (mstep s (TList t obs)) = s.
+Proof.
+  split; [reflexivity|]. split; [|reflexivity]. intros d. unfold view_docs. rewrite in_sorted, filter_In, keys_of_spec.
+  split; [tauto|]. intros H. split; auto. split; [now apply visible_in_keys | tauto].
+Qed.
+
+(* what the listing shows depends on the transaction's own operations only *)
+Theorem listing_isolated t s ops1 ops2 obs : quiet t ops1 -> quiet t ops2 ->
+  filter (mine t) ops1 = filter (mine t) ops2 ->
+  snd (mstep (run s ops1) (TList t obs)) = snd (mstep (run s ops2) (TList t obs)).
+Proof. intros H1 H2 E. cbn [mstep snd]. now rewrite (snapshot_isolation t s ops1 ops2 H1 H2 E). Qed.
